@@ -18,6 +18,8 @@ Import ListNotations.
 Open Scope bool_scope.
 Open Scope Z_scope.
 
+Module CliSafeM.
+
 (* ---------------------------------------------------------------- lib/model *)
 
 (* the loop body of transaction.expand with the two added checks: the error is returned
@@ -116,7 +118,7 @@ Definition balance_report_safe (cfg : balance_cfg) (ds : list sdirective) : cres
   cbind (cfg_partition_safe cfg b) (fun part =>
   let b := if bc_close cfg then builder_touch b (start_dates part) else b in
   let days := b_days b in
-  cbind (run_stage (check_proc (bc_lenient cfg)) check_init days) (fun r1 =>
+  cbind (run_stage (check_proc_current (bc_lenient cfg)) check_init days) (fun r1 =>
   cbind (match bc_valuation cfg with
          | Some v =>
            cbind (run_stage (compute_prices_proc v) (mkCp [] None) (snd r1)) (fun r2 =>
@@ -147,7 +149,7 @@ Definition check_cmd_safe (lenient : bool) (ds : list sdirective) : cresult unit
 
 Definition print_cmd_safe (lenient : bool) (ds : list sdirective) : cresult str :=
   cbind (load_safe ds) (fun b =>
-  cbind (run_stage (check_proc lenient) check_init (b_days b)) (fun _ =>
+  cbind (run_stage (check_proc_current lenient) check_init (b_days b)) (fun _ =>
   COk (print_journal (b_days b)))).
 
 (* ---------------------------------------------------------------- commands on a file tree *)
@@ -162,7 +164,7 @@ Definition lerror_name (e : lerror) : str :=
 
 (* journal.FromPath on the repaired loader, then the command *)
 Definition run_fs {A} (fs : fsys) (root : path) (k : list sdirective -> cresult A) : cresult A :=
-  match Loader.load (fuel_for fs) fs root with
+  match LoaderM.load (fuel_for fs) fs root with
   | LOk ds => k ds
   | LErr e => CErr k_load (lerror_name e)
   | LOutOfFuel => CPanic k_fuel
@@ -192,4 +194,7 @@ Definition balance_fs_pinned (cfg : balance_cfg) (fs : fsys) (root : path) : pre
    includes itself": the loader's error, if any (LoaderProofs.included_error_fails_all,
    cycle_is_error) *)
 Definition load_error (fs : fsys) (root : path) : option str :=
-  match Loader.load (fuel_for fs) fs root with LErr e => Some (lerror_name e) | _ => None end.
+  match LoaderM.load (fuel_for fs) fs root with LErr e => Some (lerror_name e) | _ => None end.
+
+End CliSafeM.
+Export CliSafeM.
